@@ -15,6 +15,7 @@ Oracle on the implementation alone, written independently of the model:
 import itertools
 from vlib import common as C
 
+DRIVERS = ['Multipart']   # model driver files this check runs: scopes translator failures to the tables they (and the proofs) import
 TRUSTED = ['Rust std on valid UTF-8 as modelled on bytes: String::from_utf8 (Rws.Utf8M.valid), str::trim (25 White_Space '
            'characters), char::is_ascii_control, str::replace/contains/split_once, BufRead::read_until, slice::windows',
            'model abstractions (Rws/Multipart.lean header): cursor = list of remaining lines; the three loops and the recursion '
